@@ -19,12 +19,13 @@ LEVEL = 'proof'
 
 logging.disable(logging.CRITICAL)
 
-MODS = ['Base.Bytes', 'Model.SpecCodec', 'Model.CodecsRegistry', 'Gen.C18Registry', 'Model.CodecsXfields', 'Gen.C18XRegistry', 'Model.CodecsBase', 'Gen.C18Tables', 'Model.CodecsL2cap', 'Model.CodecsRfcomm', 'Model.CodecsSdp', 'Model.CodecsUuid', 'Model.CodecsAv']
+MODS = ['Base.Bytes', 'Model.SpecCodec', 'Model.CodecsRegistry', 'Gen.C18Registry', 'Model.CodecsXfields', 'Gen.C18XRegistry', 'Gen.C18AvrcpRegistry', 'Model.CodecsA2dp', 'Model.CodecsBase', 'Gen.C18Tables', 'Model.CodecsL2cap', 'Model.CodecsRfcomm', 'Model.CodecsSdp', 'Model.CodecsUuid', 'Model.CodecsAv']
 
 
 def regen(ctx):
-    from translate import c18_tables, c18_registries
+    from translate import c18_tables, c18_registries, c18_shapes
     ctx.write_gen('C18Tables', c18_tables.generate())
+    ctx.write_gen('C18Shapes', c18_shapes.generate())
     text, translated, untranslated = c18_registries.translate()
     ctx.write_gen('C18Registry', text)
     ctx.extra['registry_translated'] = len(translated)
@@ -32,6 +33,11 @@ def regen(ctx):
     xtext, xclasses = c18_registries.translate_x()
     ctx.write_gen('C18XRegistry', xtext)
     ctx.extra['xregistry_classes'] = len(xclasses)
+    from translate import c18_avrcp
+    atext, atranslated, auntranslated = c18_avrcp.translate()
+    ctx.write_gen('C18AvrcpRegistry', atext)
+    ctx.extra['avrcp_translated'] = len(atranslated)
+    ctx.extra['avrcp_untranslated'] = auntranslated
 
 
 # ----------------------------------------------------------------------------- helpers
@@ -1683,6 +1689,100 @@ def sec_xregistry_model(ctx, B):
                       {'class': e.cls.__name__, 'data': d.hex()}, extra=extra)
 
 
+# ----------------------------------------------------------------------------- AVRCP PDU classes vs the extended field codec
+def sec_avrcp_model(ctx, B):
+    """the classes of Gen/C18AvrcpRegistry.v: xfserialize / xfparse (array groups, strings, 64-bit
+    identifiers) against the real avrcp Command / Response / Event classes"""
+    from translate import c18_registries as R, c18_avrcp as A
+    rng = ctx.rng.fork('avrcp-model')
+    _, translated, _ = A.translate()
+    dflt = '(mkxf 9 0 EmptyString [])'
+    for idx, (e, fields) in enumerate(translated):
+        hl = 1 if e.proto == 'avrcp.event' else 0
+        for k in range(ctx.n(2, 40)):
+            kw = R.gen_kwargs(rng, e.cls.__name__, e.fields)
+            ok, obj = attempt(e.build, dict(kw))
+            okb, b = attempt(lambda: bytes(obj)) if ok else (False, None)
+            try:
+                vs, _ = A.fields_value(fields, lambda n: kw[n])
+            except R.Unsupported:
+                ctx.count('avrcp-model.unsupported-value')
+                continue
+            expect = None
+            prev0 = 0
+            if ok and okb:
+                prev0 = b[hl - 1] if hl else 0
+                okp, p = attempt(e.parse, b)
+                got = None
+                if okp and type(p) is e.cls:
+                    got = some(A.fields_value(fields, lambda n: getattr(p, n))[1])
+                expect = some((list(b[hl:]), got))
+            ctx.case(('avrcp-model', e.cls.__name__, k, vs[:1500]), bool(fields))
+            ctx.count(f'avrcp-model.{e.proto}.value')
+            B.add(f'let c := nth {idx} C18AvrcpRegistry.avrcp_classes {dflt} in match xfserialize (xf_fields c) {vs} with '
+                  f'Some b => Some (b, match xfparse (xf_fields c) {prev0} b with Some (vs2, _) => Some vs2 | None => None end) '
+                  f'| None => None end', expect, 'AVRCP class (extended codec) value', {'class': e.cls.__name__})
+
+
+# ----------------------------------------------------------------------------- A2DP codec information (model)
+SBC_F = ['sampling_frequency', 'channel_mode', 'block_length', 'subbands', 'allocation_method',
+         'minimum_bitpool_value', 'maximum_bitpool_value']
+AAC_F = ['object_type', 'sampling_frequency', 'channels', 'vbr', 'bitrate']
+
+
+def sec_a2dp(ctx, B):
+    from bumble import a2dp
+    rng = ctx.rng.fork('a2dp')
+    S, A = a2dp.SbcMediaCodecInformation, a2dp.AacMediaCodecInformation
+    for _ in range(ctx.n(50, 1500)):
+        p = [rng.below(16), rng.below(16), rng.below(16), rng.below(4), rng.below(4), rng.choice([0, 2, 255, rng.below(256)]),
+             rng.choice([0, 53, 255, rng.below(256)])]
+        obj = S(S.SamplingFrequency(p[0]), S.ChannelMode(p[1]), S.BlockLength(p[2]), S.Subbands(p[3]), S.AllocationMethod(p[4]), p[5], p[6])
+        b = bytes(obj)
+        q = S.from_bytes(b + rng.bytes(rng.below(2)))
+        got = [int(getattr(q, n)) for n in SBC_F]
+        ctx.case(('sbc', tuple(p)), True)
+        ctx.count('a2dp.sbc.value')
+        if got != p or not (q == obj) or bytes(q) != b:
+            ctx.violation('a2dp:SbcMediaCodecInformation:' + (','.join(n for n, g, w in zip(SBC_F, got, p) if g != w) or 'bytes'),
+                          f'SBC{tuple(p)} -> {b.hex()} -> {got}', {'kind': 'sbc', 'fields': p})
+        B.add(f'(sbc_bytes {cb(p)}, sbc_parse (sbc_bytes {cb(p)}))', (list(b), some(got)), 'SbcMediaCodecInformation', {'fields': p})
+    for _ in range(ctx.n(40, 1000)):
+        d = rng.bytes(rng.choice([4, 4, 4, 5, 3, 0]))
+        ok, q = attempt(S.from_bytes, d)
+        expect = some(([int(getattr(q, n)) for n in SBC_F], list(bytes(q)))) if ok else None
+        if ok and bytes(q) != d[:4]:
+            ctx.violation('a2dp:SbcMediaCodecInformation:bytes', f'{d.hex()} re-serialises as {bytes(q).hex()}', {'kind': 'sbc-rx', 'data': d.hex()})
+        ctx.case(('sbc-rx', d), ok)
+        ctx.count('a2dp.sbc.bytes')
+        B.add(f'match sbc_parse {cb(d)} with Some p => Some (p, sbc_bytes p) | None => None end', expect, 'SbcMediaCodecInformation.from_bytes', {'data': d.hex()})
+    for _ in range(ctx.n(50, 1500)):
+        p = [rng.choice([0x80, 0x40, 0xF0, rng.below(256)]), rng.choice([1, 16, 0xFFF, 0x800, rng.below(4096)]), rng.below(4), rng.below(2),
+             rng.choice([0, 1, 255, 256, 65535, 65536, 2 ** 23 - 1, rng.below(2 ** 23)])]
+        obj = A(A.ObjectType(p[0]), A.SamplingFrequency(p[1]), A.Channels(p[2]), p[3], p[4])
+        b = bytes(obj)
+        q = A.from_bytes(b + rng.bytes(rng.below(2)))
+        got = [int(getattr(q, n)) for n in AAC_F]
+        ctx.case(('aac', tuple(p)), p[4] > 65535)
+        ctx.count('a2dp.aac.value')
+        if got != p or not (q == obj) or bytes(q) != b:
+            ctx.violation('a2dp:AacMediaCodecInformation:' + (','.join(n for n, g, w in zip(AAC_F, got, p) if g != w) or 'bytes'),
+                          f'AAC{tuple(p)} -> {b.hex()} -> {got}', {'kind': 'aac', 'fields': p})
+        pl = '[' + '; '.join(map(str, p)) + ']'
+        B.add(f'(aac_bytes {pl}, aac_parse (aac_bytes {pl}))', (list(b), some(got)), 'AacMediaCodecInformation', {'fields': p})
+    for _ in range(ctx.n(40, 1000)):
+        d = rng.bytes(rng.choice([6, 6, 6, 7, 5, 0]))
+        if len(d) >= 3 and rng.chance(2, 3):
+            d = d[:2] + bytes([d[2] & 0xFC]) + d[3:]
+        ok, q = attempt(A.from_bytes, d)
+        expect = some(([int(getattr(q, n)) for n in AAC_F], list(bytes(q)))) if ok else None
+        if ok and not d[2] & 3 and bytes(q) != d[:6]:
+            ctx.violation('a2dp:AacMediaCodecInformation:bytes', f'{d.hex()} re-serialises as {bytes(q).hex()}', {'kind': 'aac-rx', 'data': d.hex()})
+        ctx.case(('aac-rx', d), ok)
+        ctx.count('a2dp.aac.bytes')
+        B.add(f'match aac_parse {cb(d)} with Some p => Some (p, aac_bytes p) | None => None end', expect, 'AacMediaCodecInformation.from_bytes', {'data': d.hex()})
+
+
 # ----------------------------------------------------------------------------- parse-driven oracle (no model)
 def _same_value(a, b):
     """equality of two parsed objects: the class's own __eq__ when it defines one, else the
@@ -2062,4 +2162,4 @@ def run(ctx):
 
 
 SECTIONS[:] = [sec_ertm, sec_l2cap_misc, sec_rfcomm, sec_sdp, sec_uuid, sec_address, sec_adv, sec_av, sec_registries,
-               sec_registry_model, sec_xregistry_model, sec_parse_driven]
+               sec_registry_model, sec_xregistry_model, sec_avrcp_model, sec_a2dp, sec_parse_driven]
